@@ -148,6 +148,12 @@ static int uw_diff(unsigned user_bits, const cfg_uopts_t *u, const cfg_eff_t *re
           fname = "i.flags(usevc)";
         }
       }
+      if (!strcmp(fname, "i.servers") && rt_has_ll_noiface(a)) {
+        /* the reference list itself holds a link-local server without an interface, which only the
+         * list setters let through (open finding C16-linklocal-nodes-not-duplicated); such an
+         * entry takes over the interface of a system-configured server with the same address */
+        fname = "i.servers(linklocal-without-iface)";
+      }
       snprintf(key, sizeof(key), "cfg16:userwins:%s:%s", fname, stage);
       vh_violation(key, "without system configuration %.300s, with it %.300s | %s | %s", a ? a : "-",
                    b ? b : "-", uo, w);
